@@ -109,7 +109,7 @@ Section LeafPrefix.
 
   Theorem leaf_prefix_correct : forall l t id ith,
     nth_error tails l = Some t -> id - ith = N.of_nat l ->
-    get_leaf_prefix m id ith = Val (DLeaf (N.of_nat l) t).
+    get_leaf_prefix m id ith = Val (DnLeaf (N.of_nat l) t).
   Proof.
     intros l t id ith Hl Hid. unfold get_leaf_prefix. rewrite Hid. cbn [m m_leafpfx lp v_presence v_position v_bytes].
     cbn [index_bm b_words b_rank].
